@@ -73,6 +73,9 @@ type isoCell struct {
 	// TotalityOnly: the shape is not promised by the documentation (it must not
 	// crash the compiler, but it need not be accepted)
 	TotalityOnly bool
+	// MustAccept (with TotalityOnly): valid and documented, so C07 demands acceptance, but outside what the
+	// expected-contract models of C02/C04 describe (types declared in hand-written proto files)
+	MustAccept bool
 }
 
 func oneFieldBundle(f *jF, extra ...*jElem) *jBundle {
@@ -425,6 +428,21 @@ func isolationMatrix() []isoCell {
 	// proto <-> j5s
 	add("mixed/j5s-uses-proto", &jBundle{Files: []*jFile{{Path: "iso/v1/a.j5s", Pkg: "iso.v1", Elems: []*jElem{objDecl("Alpha", fld("legacy", tRef(kObject, "Legacy", "iso.v1.Legacy")))}}},
 		Protos: map[string]string{"iso/v1/legacy.proto": "syntax = \"proto3\";\n\npackage iso.v1;\n\nmessage Legacy {\n  string name = 1;\n}\n"}})
+	// an enum from a hand-written proto file of the package, restricted by short option names
+	{
+		kindProto := map[string]string{"iso/v1/kind.proto": "syntax = \"proto3\";\n\npackage iso.v1;\n\nenum Kind {\n  KIND_UNSPECIFIED = 0;\n  KIND_SMALL = 1;\n  KIND_LARGE = 2;\n}\n"}
+		kind := func(r *jRules) *jT { return tRef(kEnum, "Kind", "iso.v1.Kind").with(func(t *jT) { t.Rules = r }) }
+		mixed := func(id string, f *jF) {
+			add("mixed/j5s-rules-on-proto-enum/"+id, &jBundle{Files: []*jFile{{Path: "iso/v1/a.j5s", Pkg: "iso.v1", Elems: []*jElem{objDecl("Box", f)}}}, Protos: kindProto})
+			cells[len(cells)-1].TotalityOnly = true
+			cells[len(cells)-1].MustAccept = true
+		}
+		mixed("none", fld("kind", kind(nil)))
+		mixed("in", fld("kind", kind(&jRules{In: []string{"SMALL", "LARGE"}})))
+		mixed("notIn", fld("kind", kind(&jRules{NotIn: []string{"LARGE"}})))
+		mixed("array-item-notIn", fld("kinds", tArr(kind(&jRules{NotIn: []string{"LARGE"}}))))
+		mixed("map-value-in", fld("kinds", tMap(kind(&jRules{In: []string{"SMALL"}}))))
+	}
 	add("mixed/proto-uses-j5s", &jBundle{Files: []*jFile{{Path: "iso/v1/a.j5s", Pkg: "iso.v1", Elems: []*jElem{objDecl("Alpha", fld("name", tScalar(kString)))}}},
 		Protos: map[string]string{"iso/v1/legacy.proto": "syntax = \"proto3\";\n\npackage iso.v1;\n\nimport \"iso/v1/a.j5s.proto\";\n\nmessage Legacy {\n  Alpha alpha = 1;\n}\n"}})
 	return cells
